@@ -1,6 +1,7 @@
 // C16 — cluster plugin. Every outcome script x retry budget x idempotent flag/override x server count x
 // mode on the real plugin (virtual time makes back-off sleeps free) against a reference retry loop;
 // Forking and Broadcast under schedule exploration with every outcome vector.
+//go:debug panicnil=1
 package main
 
 import (
@@ -96,18 +97,22 @@ func runScript(c cfgT, script string, res *h.SeqResult) {
 					return nil, errSrv
 				case 'P':
 					panic("server panic")
+				case 'N':
+					panic(nil)
 				}
 				return []byte(fmt.Sprintf("resp#%d@%s", len(lg.attempts), u)), nil
 			}
 			func() {
+				panicking := true
 				defer func() {
-					if r := recover(); r != nil {
+					if r := recover(); r != nil || panicking {
 						lg.err = fmt.Errorf("ESCAPED PANIC: %v", r)
 					}
 				}()
 				var r []byte
 				r, lg.err = cl.Handler(ctx, []byte("req"), next)
 				lg.resp = string(r)
+				panicking = false
 			}()
 			calls = append(calls, lg)
 		}
@@ -173,7 +178,7 @@ func runScript(c cfgT, script string, res *h.SeqResult) {
 				if lg.err != errSrv {
 					res.Violate("cluster|last-error-not-returned", where+fmt.Sprintf(": got err %v", lg.err), rep)
 				}
-			case 'P':
+			case 'P', 'N':
 				if _, ok := lg.err.(*core.PanicError); !ok {
 					res.Violate("cluster|last-error-not-returned", where+fmt.Sprintf(": got err %T %v, want the panic as an error", lg.err, lg.err), rep)
 				}
@@ -239,9 +244,9 @@ func scripts(shard, nshards int, thorough bool) h.SeqResult {
 			}
 		}
 	}
-	alpha := "SEP"
+	alpha := "SEPN" // N: the attempt panics with a nil value (go:debug panicnil=1: recover returns nil for it)
 	n := 0
-	h.ForEachSeq(3, maxLen, shard, nshards, func(seq []int) {
+	h.ForEachSeq(4, maxLen, shard, nshards, func(seq []int) {
 		b := make([]byte, len(seq))
 		for i, x := range seq {
 			b[i] = alpha[x]
@@ -269,7 +274,7 @@ func forking(n int) h.Scenario {
 		s := vs.Run(ch, vs.Config{Trace: trace}, func() {
 			client := core.NewClient(urlsFor(n)...)
 			for i := range outs {
-				outs[i] = vs.Choose(3, "server-outcome")
+				outs[i] = vs.Choose(4, "server-outcome")
 			}
 			cc := core.NewClientContext()
 			cc.Init(client)
@@ -285,6 +290,8 @@ func forking(n int) h.Scenario {
 					return nil, errSrv
 				case 2:
 					panic("server panic")
+				case 3:
+					panic(nil)
 				}
 				return []byte(fmt.Sprintf("resp@s%d", i)), nil
 			})
@@ -310,7 +317,7 @@ func forking(n int) h.Scenario {
 				ok = i >= 0 && i < n && outs[i] == 0
 			}
 			if !ok {
-				o.Viol = append(o.Viol, h.V{Sig: "forking|success-not-returned", What: fmt.Sprintf("%s outcomes %v (0=ok 1=error 2=panic): returned %q err %v although a server succeeded", name, outs, resp, err)})
+				o.Viol = append(o.Viol, h.V{Sig: "forking|success-not-returned", What: fmt.Sprintf("%s outcomes %v (0=ok 1=error 2=panic 3=panic(nil)): returned %q err %v although a server succeeded", name, outs, resp, err)})
 			}
 		} else if err == nil {
 			o.Viol = append(o.Viol, h.V{Sig: "forking|success-without-successful-server", What: fmt.Sprintf("%s outcomes %v: returned %q without error although every server failed", name, outs, resp)})
@@ -337,7 +344,7 @@ func broadcast(n int) h.Scenario {
 		s := vs.Run(ch, vs.Config{Trace: trace}, func() {
 			client := core.NewClient(urlsFor(n)...)
 			for i := range outs {
-				outs[i] = vs.Choose(3, "server-outcome")
+				outs[i] = vs.Choose(4, "server-outcome")
 			}
 			cc := core.NewClientContext()
 			cc.Init(client)
@@ -353,6 +360,8 @@ func broadcast(n int) h.Scenario {
 					return nil, errSrv
 				case 2:
 					panic("server panic")
+				case 3:
+					panic(nil)
 				}
 				return []interface{}{fmt.Sprintf("r@s%d", i)}, nil
 			})
